@@ -13,7 +13,7 @@ Decided whole for <= 3 LCAs by decision-table extraction (K8):
 import ast
 
 from ..absint import Interp, Raised, Unsupported, set_partitions
-from ..astutil import dotted, norm, walk_own, call_attr
+from ..astutil import call_attr, call_recv, calls_in, const_value, dotted, norm, walk_own
 from ..index import AnalysisError
 from ..selftest import Mutant
 
@@ -35,6 +35,10 @@ conflict}; swap symmetry (exchanging THIS and OTHER exchanges 'this'/'other', ke
 -> 'this' both ways); all LCAs equal to v => same result as the three-way rule on (v, other, this); a side whose
 value is among the ancestor values never wins against a side whose value is not; other==base => 'this'; this==base
 and other!=base => 'other'. Callers handing these functions out as resolver are listed (K4).
+Callers (third round): in Merge3Merger._do_merge_contents the content winner of a criss-cross merge is assigned only by
+_lca_multi_way(.., allow_overriding_lca=False), unguarded; of a plain merge only by _three_way or by the constant 'this'
+under `base_pair == other_pair`; the content-hash comparison in _entries_lca passes allow_overriding_lca=False too;
+_entries3 restricts the prefetch of THIS's entries only by paths obtained from this_tree.find_related_paths_across_trees.
 Does not decide: anything about trees; more than 3 LCAs is covered by the lint argument (only 0 / 1 / >=2 distinct
 filtered LCA values are distinguishable, all realised at 3 LCAs), not by enumeration.
 """
@@ -234,6 +238,63 @@ def run(ctx):
     ctx.extra["resolver_users"] = users
     ctx.check("K4-users", FILE, len(users) >= 5, f"decision rules are referenced from {len(users)} sites in merge.py (floor 5)")
 
+    # ---- callers (third round): the content decision is taken by the decision functions only --------------------------
+    fc = repo.func(FILE, "Merge3Merger._do_merge_contents")
+    wc = f"{FILE}:Merge3Merger._do_merge_contents"
+    lca_ifs = [n for n in walk_own(fc) if isinstance(n, ast.If) and norm(n.test) in ("self._lca_trees", "not self._lca_trees")]
+    ctx.require(len(lca_ifs) == 1, f"{wc}: branch on self._lca_trees not found")
+    lca_body, plain_body = (lca_ifs[0].body, lca_ifs[0].orelse) if norm(lca_ifs[0].test) == "self._lca_trees" else (lca_ifs[0].orelse, lca_ifs[0].body)
+
+    def _winner_assigns(stmts):
+        out = []
+        for st in stmts:
+            for n in ast.walk(st):
+                if isinstance(n, ast.Assign) and any(norm(t) == "winner" for t in n.targets):
+                    out.append(n)
+        return out
+
+    def _guards(stmts, node):
+        """tests of the ifs (inside stmts) whose body contains node"""
+        g_ = []
+        for st in stmts:
+            for n in ast.walk(st):
+                if isinstance(n, ast.If) and any(node is x for b in n.body for x in ast.walk(b)):
+                    g_.append(norm(n.test))
+                if isinstance(n, ast.If) and any(node is x for b in n.orelse for x in ast.walk(b)):
+                    g_.append("not " + norm(n.test))
+        return g_
+
+    wa = _winner_assigns(lca_body)
+    badl = [f"L{a.lineno}:{norm(a)[:60]}" for a in wa if not (isinstance(a.value, ast.Call) and call_attr(a.value) == "_lca_multi_way" and any(k.arg == "allow_overriding_lca" and const_value(k.value, 1) is False for k in a.value.keywords) and not _guards(lca_body, a))]
+    ctx.check("content-decided-by-decision-functions", wc, bool(wa) and not badl, "in a criss-cross merge the content winner is always _lca_multi_way(.., allow_overriding_lca=False): texts are not scalars, differing LCA texts must reach the text merger", construct="; ".join(badl), message=f"the criss-cross branch of _do_merge_contents decides the content winner outside _lca_multi_way(.., allow_overriding_lca=False) ({'; '.join(badl)}): with differing LCA texts one side wins silently — the decision is not symmetric under exchanging THIS and OTHER (or a side carrying an LCA's text loses to nothing), no three-way text merge runs and no conflict is recorded")
+    wp = _winner_assigns(plain_body)
+    badp = []
+    for a in wp:
+        if isinstance(a.value, ast.Call) and call_attr(a.value) == "_three_way":
+            continue
+        g_ = _guards(plain_body, a)
+        if const_value(a.value, None) == "this" and g_ and all(x in ("base_pair == other_pair", "other_pair == base_pair") for x in g_):
+            continue  # the shortcut _three_way itself would take: OTHER unchanged -> 'this'
+        badp.append(f"L{a.lineno}:{norm(a)[:60]} under {g_}")
+    ctx.check("content-decided-by-decision-functions", wc, bool(wp) and not badp, "in a plain merge the content winner is _three_way(base, other, this), short-cut only by `base_pair == other_pair` -> 'this'", construct="; ".join(badp), message=f"_do_merge_contents decides the content winner outside _three_way ({'; '.join(badp)})")
+    fl = repo.func(FILE, "Merge3Merger._entries_lca")
+    wl = f"{FILE}:Merge3Merger._entries_lca"
+    sha_fns = {d.name for d in ast.walk(fl) if isinstance(d, ast.FunctionDef) and d is not fl and any(call_attr(c) == "get_file_sha1" for c in calls_in(d))}
+    sha_vars = {norm(a.targets[0]) for a in ast.walk(fl) if isinstance(a, ast.Assign) and isinstance(a.value, ast.Call) and dotted(a.value.func) in sha_fns}
+    sha_calls = [c for c in calls_in(fl) if call_attr(c) == "_lca_multi_way" and any(isinstance(x, ast.Name) and x.id in sha_vars for a in c.args for x in ast.walk(a))]
+    ctx.require(len(sha_calls) >= 1, f"{wl}: the _lca_multi_way call on content hashes was not found")
+    for c in sha_calls:
+        ctx.check("content-decided-by-decision-functions", wl, any(k.arg == "allow_overriding_lca" and const_value(k.value, 1) is False for k in c.keywords), "the content-hash comparison of _entries_lca uses allow_overriding_lca=False as well", construct=norm(c)[:100], message="_entries_lca compares content hashes with allow_overriding_lca left on: a side that carries one LCA's text is taken as unchanged, the entry is dropped from the merge and the other side's text wins without a text merge")
+    # THIS's name/parent/executable are looked up under THIS's own paths
+    f3 = repo.func(FILE, "Merge3Merger._entries3")
+    w3 = f"{FILE}:Merge3Merger._entries3"
+    pre = [c for c in calls_in(f3) if call_attr(c) == "iter_entries_by_dir" and call_recv(c) == "self.this_tree"]
+    translated = {norm(a.targets[0]) for a in walk_own(f3) if isinstance(a, ast.Assign) and isinstance(a.value, ast.Call) and call_attr(a.value) == "find_related_paths_across_trees" and call_recv(a.value) == "self.this_tree"}
+    for c in pre:
+        sf = [k.value for k in c.keywords if k.arg == "specific_files"] + list(c.args[:1])
+        ok_ = not sf or const_value(sf[0], 0) is None or norm(sf[0]) in translated or (isinstance(sf[0], ast.Call) and call_attr(sf[0]) == "find_related_paths_across_trees" and call_recv(sf[0]) == "self.this_tree")
+        ctx.check("this-values-under-this-paths", w3, ok_, "the prefetch of THIS's entries is restricted by paths translated into THIS's namespace (or not restricted)", construct=norm(c)[:100], message=f"_entries3 prefetches THIS's inventory entries with specific_files={norm(sf[0]) if sf else None}, paths that are not translated into THIS's namespace: a file THIS renamed is missing from the prefetch, its name/parent/executable are taken as absent and the name decision lets the unchanged OTHER side win against THIS's rename")
+
 
 def _canon(p):
     """Restricted-growth canonical form of a tuple of class labels."""
@@ -249,6 +310,8 @@ def _canon(p):
 FLOOR = 20
 
 MUTANTS = [
+    Mutant("criss-cross content decided as a scalar", FILE, "                this_pair,\n                allow_overriding_lca=False,\n            )\n        else:\n            base_pair = contents_pair(self.base_tree, base_path)\n", "                this_pair,\n            )\n        else:\n            base_pair = contents_pair(self.base_tree, base_path)\n", expect="content-decided-by-decision-functions"),
+    Mutant("THIS prefetch restricted by untranslated paths", FILE, "                    specific_files=this_interesting_files\n", "                    specific_files=self.interesting_files\n", expect="this-values-under-this-paths"),
     Mutant(
         "lca: 'no LCA carries the entry' shortcut compares with BASE instead of None",
         FILE,
